@@ -94,6 +94,7 @@ def verify_one(args):
         out["assumptions"] = sorted(eng.assumptions)
         out["inlined"] = sorted(eng.inlined)
         out["used_contracts"] = sorted(eng.used_contracts)
+        out["used_lemmas"] = sorted(eng.used_lemmas)
         # vacuity: the precondition must be satisfiable, and some path must return
         vac = satisfiable(info["entry_pc"])
         out["vacuity_requires"] = vac
